@@ -119,7 +119,7 @@ fn main() {
   let progress = args.out.join("progress.txt");
   let mut cases: Vec<Case> = Vec::new();
   let mut dist: BTreeMap<String, u64> = BTreeMap::new();
-  let mut bump = |dist: &mut BTreeMap<String, u64>, k: &str, n: u64| {
+  let bump = |dist: &mut BTreeMap<String, u64>, k: &str, n: u64| {
     *dist.entry(k.to_string()).or_insert(0) += n;
   };
 
